@@ -528,7 +528,13 @@ impl Desugared {
 // generators
 
 pub const SHAPES: &[&str] = &["N", "X", "N.N", "N.X", "X.N", "X.X", "N.N.N", "N.N.X", "N.X.N", "N.X.X", "X.N.N", "X.N.X", "X.X.N", "X.X.X"];
-pub const GARBAGE: &[&str] = &["foo", "1.2.3.4", "1.2beta4", ">=1.y", "!1", "1,2", "~1.y", "bar-baz", "1.2.3.", "=>1"];
+// tokens no rule of the range grammar accepts (each checked against node-semver 7.6.2 in loose
+// mode: dropped as garbage). The second group are valid comparators with junk attached and
+// tokens that only look like parts of a hyphen range: they probe the token-boundary rules.
+pub const GARBAGE: &[&str] = &[
+    "foo", "1.2.3.4", "1.2beta4", ">=1.y", "!1", "1,2", "~1.y", "bar-baz", "1.2.3.", "=>1",
+    "^1.2foo", "~1.2.3.4", "^1.2.3.4", ">=1.2.3.4", "<1.2.3.", "-2", "-1.2.3", "1-", "2foo", "1.2.3.4.5", "^1.x.y", "^1.2.3+", "~1.2.", "1-2", "x-", "*foo",
+];
 pub const PRE_TAGS: &[&str] = &["alpha", "0", "rc.1", "beta.2", "a.b", "1", "alpha.0", "-", "x", "0.0", "b-c"];
 
 pub fn wild(r: &mut Rng) -> Xr {
